@@ -76,3 +76,38 @@ def rem_euclid(a, b):
     if r < 0.0:
         return f32(r + abs(b))
     return r
+
+
+def rust_display(v):
+    """Rust's `{}` for f32: shortest decimal digits that round-trip to the same f32, positional notation (no exponent)"""
+    from decimal import Decimal
+    if v != v:
+        return "NaN"
+    if math.isinf(v):
+        return "inf" if v > 0 else "-inf"
+    if v == 0:
+        return "-0" if math.copysign(1.0, v) < 0 else "0"
+    for p in range(1, 10):
+        s = "%.*g" % (p, v)
+        if f32(float(s)) == v:
+            break
+    d = Decimal(s)
+    out = format(d, "f")
+    if "." in out:
+        out = out.rstrip("0").rstrip(".")
+    return out
+
+
+def rust_display_f64(v):
+    """Rust's `{}` for f64 (shortest round-trip digits, positional notation) - svgdx's loop variable is an f64"""
+    from decimal import Decimal
+    if v != v:
+        return "NaN"
+    if math.isinf(v):
+        return "inf" if v > 0 else "-inf"
+    if v == 0:
+        return "-0" if math.copysign(1.0, v) < 0 else "0"
+    out = format(Decimal(repr(float(v))), "f")
+    if "." in out:
+        out = out.rstrip("0").rstrip(".")
+    return out
